@@ -46,6 +46,11 @@ REFINED = ["Repr::simplest_in (continued-fraction descent: soundness, simultaneo
            "(Props/C18Gen: rounding_interval_is_macro, min_exp_f32_f64, ends_allowed_is_mantissa_parity)",
            "IBig::div_rem of the descent = C02's mirrored and proved division, gcd of every reduce = C12's proved gcd, for every word "
            "size (Props/C18Kernels: descent_div_rem_is_proved_kernel, reduce_gcd_is_proved_kernel, reduce_over_proved_gcd)",
+           "the WHOLE loop of Repr::simplest_in over the proved word-level kernels (round 7): simplestLoopW = the loop text with every "
+           "div_rem / * / + / - going through C02's ibigDivRem and C01's ibigMul / ibigAdd / ibigSub on canonical representations, "
+           "proved equal to the model's Int loop for every word size >= 4, state, fuel and ownership form "
+           "(Props/C18Kernels.descent_over_proved_kernels), hence terminating with the fraction of minimal numerator and denominator "
+           "(kernel_descent_optimal)",
            "where the code's error bounds ARE the rounding set (even base, significand not a power of the base, HalfEven parity "
            "condition): code_set_is_rounding_set_on_class, code_optimal_on_class — the complement of the recorded finding as a theorem",
            "Repr::cmp used by the model (cmpQ) = the regenerated repr_cmp of rational/src/cmp.rs (Props/C18Link.cmpQ_is_regenerated_repr_cmp, "
@@ -60,9 +65,10 @@ FRONTIER = ["the correspondence model <-> code of simplest_from_float (FBig) is 
             "float/src/fbig.rs:402; `precision + 1` overflows at usize::MAX, dashu_float.rs:198): reported, not driven",
             "next_up / next_down / an inexact nearest with limits beyond ~3000 are not driven: farey_neighbors is linear in limit "
             "(theorems cover every limit); nearest with multi-word limits is driven on its Exact arm",
-            "IBig multiplication / addition / shifts inside the descent and the interval construction are Lean Int arithmetic "
-            "(contract of C01; C04Link.ring_contracts_are_proved_kernels is the composition for the same operations); div_rem and gcd "
-            "are linked by theorem (Props/C18Kernels)"]
+            "IBig multiplication / addition / shifts inside the INTERVAL CONSTRUCTION (roundingInterval, scaleQ / powQ of the FBig path, "
+            "the mediant additions of farey_neighbors) and the sign test `num_l < den_l` of the descent are Lean Int arithmetic "
+            "(contract of C01 / C14; C04Link.ring_contracts_are_proved_kernels is the composition for the same operations); the descent "
+            "loop itself (div_rem, *, +, -) and the gcd are linked by theorem (Props/C18Kernels: descent_over_proved_kernels)"]
 RULE = ("simplest_in: end points from {small fractions, neighbours in a Farey sequence, convergents of a random continued "
         "fraction (very narrow intervals, large denominators), integers, zero, huge/tiny, numerators/denominators of EVERY bit "
         "length 1..200 and 2^j, 2^j+-1 at word/double-word boundaries} in both orders, equal, negative, "
@@ -87,7 +93,7 @@ EXPLANATION = ("Theorems (all integers, all limits): simplest_in returns a reduc
                "element for every limit >= 1; nearest picks the closer with the sign of result - x, Exact iff the denominator "
                "fits; is_simpler_than (text regenerated from the source on every run) is exactly the documented "
                "lexicographic order.")
-ASSUMPTIONS = ["dashu-int mul/add/shift meet their contracts (C01); div_rem and gcd are linked to C02/C12 by theorem"]
+ASSUMPTIONS = ["dashu-int mul/add/shift meet their contracts (C01) outside the descent loop; the descent loop (div_rem, mul, add, sub) and gcd are linked to C01/C02/C12 by theorem"]
 THEOREMS = []
 READY = True
 
